@@ -200,3 +200,37 @@ Section Thm.
     o_replace o = true -> overlay_all o sroot V0 src dst <> inr (XConflict cls p bef).
   Proof. intros Hr E. destruct (overlay_all_conflict _ _ _ _ _ _ E) as (H & _). congruence. Qed.
 End Thm.
+
+(* ---- auxiliary facts used by the property files ---- *)
+Lemma count_N_notin i l : ~ In i l -> count_N i l = O.
+Proof.
+  induction l as [|j r IH]; simpl; auto. intro H. destruct (N.eqb i j) eqn:E.
+  - apply N.eqb_eq in E. subst. exfalso. apply H. left; auto.
+  - apply IH. intro Hin. apply H. right; auto.
+Qed.
+Lemma no_link_groups_of_nodup sroot : NoDup (s_inos sroot) -> no_link_groups sroot.
+Proof.
+  intros H i. unfold multi_of. induction H as [|j l Hni Hnd IH]; simpl; auto.
+  destruct (N.eqb i j) eqn:E.
+  - apply N.eqb_eq in E. subst. rewrite (count_N_notin _ _ Hni). auto.
+  - exact IH.
+Qed.
+
+Section Wf.
+  Variable o : copts.
+  Variable sroot : snode.
+  Hypothesis Hsrc : wf_src sroot.
+  Hypothesis Hnl : no_link_groups sroot.
+
+  (* a successful Copy leaves a well-formed file system (so it can be copied onto again) *)
+  Theorem copy_preserves_wf_proof fs src dst st' :
+    wf_fs fs -> copy_top o sel_all sroot fs src dst = (st', None) -> wf_fs (c_fs st').
+  Proof.
+    intros Hfs E. pose proof (top o sroot Hsrc Hnl fs src dst Hfs) as H.
+    destruct (overlay_all o sroot (view_of_fs fs) src dst) as [r|xe].
+    - destruct H as (st'' & E1 & I & _ & _ & _ & _ & _ & Hroot). rewrite E in E1. inversion E1; subst st''.
+      split; [apply (i_lt _ _ _ I)|]. split; [apply (i_par _ _ _ I)|]. split; [apply (i_diru _ _ _ I)|].
+      eapply inv_x_isdir; eauto.
+    - destruct H as (st'' & e & E1 & _). rewrite E in E1. discriminate.
+  Qed.
+End Wf.
